@@ -188,6 +188,10 @@ def oracle_linear(R: Run, case, src_shape, dst_shape, A6, r, pad, align, eps, ta
     check_cover(R, key, case, src_shape, dst_shape, px, py, r, eps, f"plan|{tag}", src_limit=lim)
     # separated by more than the margin → both empty
     margin = 0 if r.paste_ok else (1 if pad is None else pad)
+    if r.paste_ok and rs > 1:
+        # overview path: the last overview pixel may reach up to rs-1 native pixels beyond the image and the
+        # shift is snapped in overview pixels, so "separated" is judged with one overview pixel of margin
+        margin = rs
     a, b, c, d, e, f = A6
     cx = [a * x + b * y + c for x in (0, dnx) for y in (0, dny)]
     cy = [d * x + e * y + f for x in (0, dnx) for y in (0, dny)]
@@ -244,6 +248,9 @@ def gen_M_exact(rng, sshape, dshape):
     ey = abs(L.d) * dnx + abs(L.e) * dny
     tx = rng.randint(-int(ex) - 4, snx + int(ex) + 4) + res
     ty = rng.randint(-int(ey) - 4, sny + int(ey) + 4) + (res if rng.random() < 0.7 else 0)
+    if kind == "scale" and abs(L.a) >= 2 and rng.random() < 0.6:  # whole overview pixels (+ residue)
+        k = int(abs(L.a))
+        tx, ty = k * round(tx / k) + k * res, k * round(ty / k)
     if rng.random() < 0.15:  # touching / just separated placements
         tx = rng.choice([snx, snx + 1, snx + 3, -int(ex), -int(ex) - 1, -int(ex) - 3]) + (res if kind == "subpix" else 0)
     return Affine.translation(tx, ty) * L, kind
@@ -378,8 +385,11 @@ def run(R: Run):
 
     # ================================================================ exact stream: compute_reproject_roi
     def options():
-        pad = rng.choice([None, None, None, 0, 0, 1, 2, 5])
-        al = rng.choice([None, None, None, 0, 1, 2, 4, 16])
+        if rng.random() < 0.4:  # tight: the paste path is allowed
+            pad, al = rng.choice([None, None, 0]), rng.choice([None, None, 0])
+        else:
+            pad = rng.choice([None, None, None, 0, 0, 1, 2, 5])
+            al = rng.choice([None, None, None, 0, 1, 2, 4, 16])
         ttol = rng.choice([0.05, 0.05, 0.05, 2**-5, 2**-4 + 2**-8, 0.26])
         return pad, al, ttol
 
@@ -508,6 +518,21 @@ def run(R: Run):
                      sig="plan|edge-stol")
         else:
             oracle_linear(R, case, sshape, dshape, faff(D), r, kw.get("padding"), kw.get("align"), 0, "corpus")
+
+    # --- near-integer scale on wide images: the snapped transform drifts (known finding, own keys)
+    for (sshape, dshape, sx) in [((4, 4000), (4, 4002), 0.9995), ((4, 5000), (4, 4000), 1.0005),
+                                 ((3, rng.randint(1500, 5000)), (3, rng.randint(1500, 5000)), 1 + rng.choice([-1, 1]) * rng.uniform(4e-4, 9e-4))]:
+        D = Affine(sx, 0, 0, 0, 1, 0)
+        src, dst = gb(sshape, Affine.identity()), gb(dshape, D)
+        case = {"fn": "compute_reproject_roi", "src_shape": sshape, "dst_shape": dshape, "src_affine": [1, 0, 0, 0, 1, 0],
+                "dst_affine": list(D)[:6], "crs": CRS0}
+        try:
+            r = O.compute_reproject_roi(src, dst)
+        except Exception as e:  # pylint: disable=broad-except
+            R.oracle(False, "plan-raises", case, f"compute_reproject_roi raised {type(e).__name__}: {e}", sig="plan|raises")
+            continue
+        A6 = fmul(finv(faff(Affine.identity())), faff(D))
+        oracle_linear(R, case, sshape, dshape, A6, r, None, None, 1e-6, "drift", st_scale=(abs(sx), 1.0))
 
     # ================================================================ float stream, same CRS (oracle only)
     for _ in range(R.pick(400, 4000)):
